@@ -375,7 +375,7 @@ def gaussian_matrix(c, cfg):
         cc = positive(c, 'tc')
         b = c.real('tb')
         c.assume(a * cc - b * b > 0, 'symbolic 2x2 matrix is positive definite')
-        val = np.array([[a, b], [b, cc]], dtype=object)
+        val = np.array([[a, b], [b, cc]], dtype=object if not getattr(c, 'concrete', False) else float)
         return val, ('sym2', form, a, b, cc)
     raise ValueError(pk)
 
